@@ -514,6 +514,19 @@ def wireRoster (st : State) (s : String) : Option (Option Roster) :=
     | some r => if r.list.any (·.nokey) then none else some ro
     | none => some none
 
+/-- `tree <label> <tree id> <roster label> <member position/node id:arity,…>` -/
+def treeOp (st : State) (l tid r items : String) : State × String :=
+  match l.toNat?, tid.toNat?, r.toNat?.bind (lookup st.rosters), parseItems items with
+  | some l, some tid, some ro, some its =>
+    let mk := fun (pos nid : Nat) (c s : TN) =>
+      (ro.list[pos]?).bind fun e => if e.nokey then none else some (TN.node nid e.sid e.key pos 0 c s)
+    match parseForestWith TN.nil mk (its.length + 1) 1 its with
+    | some (f, []) =>
+      let t := newTree tid ro f
+      ({ st with trees := insert st.trees l t, shapes := insert st.shapes l (r.toNat?.getD 0, its) }, showTree t)
+    | _ => (st, "bad-op")
+  | _, _, _, _ => (st, "bad-op")
+
 def step (st : State) (toks : List String) : State × String :=
   match toks with
   -- `roster <label> <id> <tag> <sid/key,…>`
@@ -523,17 +536,16 @@ def step (st : State) (toks : List String) : State × String :=
       ({ st with rosters := insert st.rosters l { id := id, list := sv, tag := tag } }, "ok")
     | _, _, _, _ => (st, "bad-op")
   -- `tree <label> <tree id> <roster label> <member position/node id:arity,…>`: NewTreeNode + NewTree
-  | ["tree", l, tid, r, items] =>
-    match l.toNat?, tid.toNat?, r.toNat?.bind (lookup st.rosters), parseItems items with
-    | some l, some tid, some ro, some its =>
-      let mk := fun (pos nid : Nat) (c s : TN) =>
-        (ro.list[pos]?).bind fun e => if e.nokey then none else some (TN.node nid e.sid e.key pos 0 c s)
-      match parseForestWith TN.nil mk (its.length + 1) 1 its with
-      | some (f, []) =>
-        let t := newTree tid ro f
-        ({ st with trees := insert st.trees l t, shapes := insert st.shapes l (r.toNat?.getD 0, its) }, showTree t)
-      | _ => (st, "bad-op")
-    | _, _, _, _ => (st, "bad-op")
+  | ["tree", l, tid, r, items] => treeOp st l tid r items
+  -- `gtree <label> <tree id> <roster label> <N> <root position> <items>`: the tree is made by the real
+  -- `GenerateNaryTreeWithRoot(N, ro.List[root])` (property C12 says which tree that is: the complete
+  -- N-ary tree in breadth-first order over the roster rotated to the root — `items` spell it out,
+  -- with the roster position every node must carry); from here on it is a tree like any other
+  | ["gtree", l, tid, r, bn, root, items] =>
+    match bn.toNat?, root.toNat?, r.toNat?.bind (lookup st.rosters) with
+    | some bn, some root, some ro =>
+      if bn = 0 ∨ root ≥ ro.list.length then (st, "bad-op") else treeOp st l tid r items
+    | _, _, _ => (st, "bad-op")
   -- `retree <label> <tree id> <old label> add <k> <position>` / `… prune <k>`: the TreeNode objects of
   -- the old tree are re-used: node k (pre-order) gets a new leaf as last child / loses its last
   -- child; NewTree over the same root.  The old label is gone (its nodes are the new tree's).
